@@ -110,6 +110,13 @@ Theorem C01_code_allowed_exact : forall n, 1 <= n ->
             (forall s, In s l <-> length s = n /\ exists t, pre t = s) /\ NoDup l.
 Proof. exact allowed_code_exact. Qed.
 Print Assumptions C01_code_allowed_exact.
+(* end to end: every row of the generated get_allowed_shapes (n >= 2) is the code of a tree with n nodes on which the generated
+   check_tree -- as shape_to_functions calls it -- succeeds, considers the whole row and returns that tree's arrays *)
+Theorem C01_code_allowed_rows_check_tree : forall n l s, 2 <= n ->
+  get_allowed_shapes_code n = Some (mkArr n l) -> In s l ->
+  exists u, pre u = s /\ size u = n /\ check_tree_code s = Some (true, Some s, arr u 0 None).
+Proof. exact allowed_rows_check_tree. Qed.
+Print Assumptions C01_code_allowed_rows_check_tree.
 Theorem C01_code_allowed_zero : get_allowed_shapes_code 0 = None.
 Proof. exact allowed_code_zero. Qed.
 Example C01_ex_code_shapes4 : get_allowed_shapes_code 4 = Some (mkArr 4 [[1;1;1;0]; [1;2;0;0]; [2;0;1;0]; [2;1;0;0]]).
